@@ -323,7 +323,11 @@ class JsonSchemaGenerator:
             name = field.name
             properties[name] = value
             if field.dependencies:
-                dependent_required[name] = field.dependencies
+                # dependencies hold the keys of parser.fields: publish the names of those fields
+                dependent_required[name] = sorted(
+                    parser.fields[dep].name if dep in parser.fields else dep
+                    for dep in field.dependencies
+                )
             if field.is_required(options or self.options):
                 # will count options.ignore_required in
                 required.append(name)
@@ -337,6 +341,12 @@ class JsonSchemaGenerator:
         data.update(properties=properties)
         if required:
             data.update(required=required)
+        # a dependency that is not a property of this view (no_input / no_output / other mode) cannot be demanded
+        dependent_required = {
+            key: [dep for dep in deps if dep in properties]
+            for key, deps in dependent_required.items()
+        }
+        dependent_required = {key: deps for key, deps in dependent_required.items() if deps}
         if dependent_required:
             data.update(dependentRequired=dependent_required)
         addition = options.addition
